@@ -106,6 +106,19 @@ def inverse3(t1: str, t2: str, t3: str, q1: bool, q2: bool, q3: bool) -> bool:
     return TokenParser().parse(s) == [t1, t2, t3]
 
 
+TOK_WS = "a \t\r\n"
+
+
+def inverse_ws(t1: str, t2: str, q1: bool, q2: bool) -> bool:
+    """
+    pre: len(t1) == PART["l1"] and len(t2) == PART["l2"]
+    pre: all(c in TOK_WS for c in t1) and all(c in TOK_WS for c in t2)
+    post: _
+    """
+    # whitespace of every kind INSIDE a quoted token (space, tab, CR, LF and their combinations) is kept as it is
+    return TokenParser().parse(quote(t1, q1) + "\r\n" + quote(t2, q2)) == [t1, t2]
+
+
 def inverse_twin(t1: str, q1: bool) -> bool:
     """
     pre: len(t1) == 2
@@ -162,6 +175,61 @@ def raw_equiv_quoted(t1: str, t2: str, q1: bool, q2: bool) -> bool:
     return s.tokens == a.tokens and s.option_tokens == a.option_tokens
 
 
+# ---- wrapping is repeatable: what an earlier wrapper (or whoever used it) did to its token list never shows in a later wrapper of the same input
+LINES = ["help deploy", "deploy", "deploy -h", "deploy x -- -h", "help", ""]
+
+
+def _history_app():
+    from clikit.api.args.format.argument import Argument
+    from clikit.config.default_application_config import DefaultApplicationConfig
+    from clikit.console_application import ConsoleApplication
+    cfg = DefaultApplicationConfig("prog", "1.0")
+    cfg.set_catch_exceptions(True)
+    cfg.set_terminate_after_run(False)
+    with cfg.command("deploy") as c:
+        c.add_argument("target", Argument.OPTIONAL)
+        c.set_handler_method("handle")
+        c.set_handler(type("H", (), {"handle": lambda self, args, io: 0})())
+    return ConsoleApplication(cfg)
+
+
+def _history_case(i1, how, i2):
+    from clikit.io.buffered_io import BufferedIO
+    l1, l2 = LINES[i1], LINES[i2]
+    app = _history_app()
+    first = StringArgs(l1)
+    if how == 0:
+        from clikit.io.input_stream.string_input_stream import StringInputStream
+        app.run(first, StringInputStream(""), BufferedIO().output.stream, BufferedIO().error_output.stream)
+    elif how == 1 and first.tokens:
+        del first.tokens[0]
+    elif how == 2:
+        first.tokens.append("zz")
+    argv = ["prog"] + l2.split()
+    keep = list(argv)
+    s, a = StringArgs(l2), ArgvArgs(argv)
+    if argv != keep or s.tokens != l2.split() or a.tokens != l2.split() or s.option_tokens != a.option_tokens:
+        return False
+    fresh = _history_app()
+    outs = []
+    for raw in (s, a):
+        try:
+            rc = fresh.resolve_command(raw)
+            outs.append((rc.command.name, rc.args.arguments(), rc.args.options()))
+        except Exception as e:  # noqa
+            outs.append((type(e).__name__, str(e)))
+    return outs[0] == outs[1]
+
+
+def raw_history(i1: int, how: int, i2: int) -> bool:
+    """
+    pre: 0 <= i1 < len(LINES) and 0 <= i2 < len(LINES) and 0 <= how <= 2
+    post: _
+    """
+    from vf.sym import conc_int, untraced
+    return untraced(_history_case, conc_int(i1, 0, len(LINES) - 1), conc_int(how, 0, 2), conc_int(i2, 0, len(LINES) - 1))
+
+
 def conditions(tier):
     quick = tier == "quick"
     t = 90 if quick else 400
@@ -189,6 +257,12 @@ def conditions(tier):
                 for l3 in range(0, 3):
                     conds.append({"name": "inverse3[%d,%d,%d]" % (l1, l2, l3), "fn": inverse3, "timeout": t, "part": {"l1": l1, "l2": l2, "l3": l3},
                                   "bounds": "three expressible tokens of lengths %d,%d,%d; 2^3 quote styles" % (l1, l2, l3)})
+    for l1 in range(0, (2 if quick else 3) + 1):
+        for l2 in range(0, 3):
+            conds.append({"name": "inverse_ws[%d,%d]" % (l1, l2), "fn": inverse_ws, "timeout": t, "part": {"l1": l1, "l2": l2},
+                          "bounds": "two quoted tokens of lengths %d,%d over {a,space,tab,CR,LF}, 2x2 quote styles, separated by CR LF" % (l1, l2)})
+    conds.append({"name": "raw_history", "fn": raw_history, "timeout": t,
+                  "bounds": "a command string from %r wrapped and then run through an application / its token list shortened / extended; afterwards a second wrapper of any of the strings: tokens, option tokens and the command and arguments it resolves to equal those of the argv form" % (LINES,)})
     conds.append({"name": "inverse_twin", "fn": inverse_twin, "timeout": t, "expect": "refute", "bounds": "reachability twin"})
     import itertools
     for ls in itertools.product(*([[0, 1, 2]] * 3)):
